@@ -146,10 +146,15 @@ def run(run):
                     for ext in (".jav", ".java.txt", ".JAVA", ".kt", ""):
                         if rng.random() < 0.3:
                             files[rel.replace(".java", "") + "_x" + ext] = files[rel]
+                # a source that is not valid UTF-8 (saved as ISO-8859-1 / GBK): still a .java file with constructs in it
+                legacy = ("// int\xe9r\xeat\nclass Legacy%d { /* caf\xe9 \xb0\xc4\xb0\xc4 */ int taux(int a) { String s = \"\xe9t\xe9\"; if (a > 1) { return a + 2; } return helper(a); } }\n" % pi)
                 for rel, text in files.items():
                     p = os.path.join(root, rel)
                     os.makedirs(os.path.dirname(p), exist_ok=True)
                     open(p, "w", encoding="utf-8").write(text)
+                files["legacy/Legacy%d.java" % pi] = legacy
+                os.makedirs(os.path.join(root, "legacy"), exist_ok=True)
+                open(os.path.join(root, "legacy", "Legacy%d.java" % pi), "wb").write(legacy.encode("latin-1"))
                 r = h.call(op="scan", dir=root, graph="p", timeout=300)
                 run.count(("project", pi, len(files)))
                 got_files = collections.Counter(n["file"] for n in r["nodes"])
